@@ -9,6 +9,9 @@ use crate::Entry;
 
 #[cfg(feature = "background-queue")]
 mod background;
+#[cfg(all(kani, feature = "background-queue"))]
+#[doc(hidden)]
+pub use background::verif_hooks;
 mod immediate_flush;
 mod metrics;
 
